@@ -13,7 +13,7 @@ EXPLANATION = (
     "value provably comes from an integer (finite). R2: RefCount guard discipline (a get_mut while a guard of the "
     "same pointee type may be live panics in the default build). R3: the mania column search `find_available_column(col, None, &[prev_pattern])` "
     "asserts that a column outside `prev_pattern` exists; with the whole column range and that single exclusion set this is exactly "
-    "`prev_pattern.column_with_objs() < total_columns`, which must be an established fact at the call. R4: `clamp(lo, hi)` panics when lo > hi: every clamp whose bounds are not two ordered constants has lo <= hi established — by a dominating comparison of the variable bound, by both bounds being the same value shifted by ordered constants, or by a constant lower bound <= 0 with an upper bound that is non-negative by construction (abs, squares, products and quotients of non-negative parts; local functions read through). NaN bounds are excluded only where a comparison establishes it. All other panic/hang corners (integer overflow, "
+    "`prev_pattern.column_with_objs() < total_columns`, which must be an established fact at the call. R4: `clamp(lo, hi)` panics when lo > hi: every clamp whose bounds are not two ordered constants has lo <= hi established — by a dominating comparison of the variable bound, by both bounds being the same value shifted by ordered constants, or by a constant lower bound <= 0 with an upper bound that is non-negative by construction (abs, squares, products and quotients of non-negative parts; local functions read through). NaN bounds are excluded only where a comparison establishes it. R5: the largest column count a mania conversion can choose — interval evaluation of the result of target_columns over constants, min / max / + / *, the key-mod accessor bounded by the constants written in it — does not exceed the bit width of the integer ContainedColumns shifts `1 << column` into. All other panic/hang corners (integer overflow, "
     "index arithmetic, empty windows, PRNG column search) are numeric and NOT decided.")
 
 
